@@ -7,12 +7,14 @@ TXT = {
          "correspondence with an executable Lean model (theorems pending)"),
  "C02": ("Lean theorems: an if renders exactly the branch evalCond selects (cond_selects, cond_false_no_else), the decision of a comparison is the same in any two contexts carrying the same variables (nodeCmp_same / cmp_same / get_same: history independence), literal-on-the-left uses the mirrored operator correctly (swap_int, literal_left_int), switch takes the first matching case, else the default, else nothing. Tie: random condition nests, all operators/placements/kinds, Go = model on the dumped tree.",
          "Lean 4 proof about the interpreter model + differential correspondence"),
- "C03": ("Loops: the Lean loop combinators (cloopLoop / rloopLoop / afterLoop: once per element in order, separator before every iteration but the first, else iff no iteration) are tied to cloop.go / rloop.go by a differential run over random loop nests and sequences; loop-level theorems are proved for break handling (C14) and writer failures (C17); trip-count theorems are pending, so the level is 'other'.",
-         "correspondence with an executable Lean model (theorems pending)"),
+ "C03": ("Lean theorems about the loop functions with ANY plain body (no error, no pending break): a range loop runs exactly once per element in collection order with key and value bound (rloop_once_per_element, rloop_binds, rloopWith_plain), a counter loop once per counter value while the bound comparison holds (cloop_once_per_value; closed form counterVals_lt_inc / trips_lt_inc for i<b; i++), the separator is written before every iteration but the first (sep_not_before_first, sep_before_every_later), the else branch runs iff there was no iteration (else_iff_no_iteration, rloop_nonempty_n). Tie: Go output = the model on the dumped real tree over random loop nests/sequences, every collection kind, empty collections, separators and else branches.",
+         "Lean 4 proof about loop combinators + differential correspondence"),
  "C04": ("Lean theorems lookup_latest_key / _id / _fallback / _bkeys, set_refines, notfound_*, parse_own_source(_session) for histories of unbounded length over the model of db.go (as repaired); tie: exhaustive registration histories (length <=4 quick, 5-6 thorough) with a full lookup sweep; CRC-64 collision is a known finding.",
          "Lean 4 proof (invariant by induction over the history, refinement to a two-map spec) + exhaustive correspondence"),
  "C05": ("Lean theorem render_reset_eq_new: for every context c (any history), registry, template and fault-free writer, rendering with c.Reset() equals rendering with a new context up to the ghost log — via interp_frame (the interpreter never reads the log / accepted output). That Reset clears every Go field is tied at run time: hook VerifCtxShape after every reset vs NewCtx(), every later render vs the model, returned slices re-checked.",
          "Lean 4 proof (equivariance of the interpreter, mutual induction) + history correspondence"),
+ "C06": ("Partial. Lean theorems over a lock-level interleaving model (any number of threads, every schedule): readers and the writer exclude each other (quiescent_only, writer_exclusive, no_read_during_write), every lookup observes a committed registry state and returns what the sequential lookup returns on a commit prefix (atomic_get, found_sequential, observed_is_committed), a lookup after a finished registration sees it or a later one (read_your_registration), a render is a function of the trees found and its own context (render_snapshot, render_linearizable). The hypotheses are facts REGENERATED from /repo by a go/ast extractor on every run and discharged by decide (generated_locks_ok, generated_no_tree_writes). The real code is additionally run under the race detector and an in-process stress with a linearizability oracle. Not modelled: Go memory model, sync.Pool.",
+         "Lean 4 proof over a regenerated lock/write fact base + race detector + linearizability stress"),
  "C07": None, "C08": None, "C09": None, "C10": None,
  "C11": ("Exhaustive directive strings over {h,a,j,q,J,u,l,c} up to length 4 and modifier chains up to length 3 (literal / variable / key-value arguments, every scalar kind) — Go output = Lean model (runMods is a left fold; escape modifiers iterate their escaper) on the dumped real tree. Theorems about the letter parser are pending: level 'other'.",
          "exhaustive correspondence with an executable Lean model (theorems pending)"),
